@@ -15,7 +15,11 @@ RevObserved(o) == IF o.rev = <<>> THEN <<>>
 
 ProbesOK(r, lb) == \A i \in 1..Len(r.out.probes) :
                       LET pr == r.out.probes[i] IN
-                      ~Judged(pr.p) \/ LongRun(pr.p) \/ LongRun(r.in.s) \/ pr.m = TF(CompileOk(pr.p) /\ MatchL(pr.p, r.in.s, lb))
+                      \* {p, m}: does p match the name;  {p, b, w}: best_match(name, b) under p
+                      IF "b" \in DOMAIN pr
+                      THEN ~Judged(pr.p) \/ ~CompileOk(pr.p) \/ LongRun(pr.p) \/ LongRun(r.in.s) \/ LongRun(pr.b)
+                           \/ pr.w = BestMatchL(pr.p, r.in.s, pr.b, lb)
+                      ELSE ~Judged(pr.p) \/ LongRun(pr.p) \/ LongRun(r.in.s) \/ pr.m = TF(CompileOk(pr.p) /\ MatchL(pr.p, r.in.s, lb))
 
 PkgNameVerdict(r) ==
     IF ~Shape(r.out, {"name", "base", "ver", "rev", "sb", "sv", "probes"}) THEN "bad"
